@@ -375,6 +375,47 @@ func runC19(c *eng.Ctx, tier string) {
 			if k, isC := eng.Origin(st.Val).(*ssa.Const); isC && k.Value.String() == "false" {
 				continue
 			}
+			// a constructor helper taking the flag as a parameter is judged at
+			// each call site with the flag it is given there
+			if prm, isP := eng.Origin(st.Val).(*ssa.Parameter); isP && prm.Parent() == f && freshBase(a.Base) && eng.IsHelper(f, f) {
+				idx := -1
+				for i, q := range f.Params {
+					if q == prm {
+						idx = i
+					}
+				}
+				sites := eng.StaticCallSites(f)
+				handled := idx >= 0 && len(sites) > 0
+				for _, cs := range sites {
+					if !handled || idx >= len(cs.Common().Args) {
+						handled = false
+						break
+					}
+					arg := cs.Common().Args[idx]
+					if k, isC := eng.Origin(arg).(*ssa.Const); isC && k.Value != nil && k.Value.String() == "false" {
+						continue
+					}
+					nDecl++
+					g := cs.Parent()
+					hs := l.HeldBefore(cs)
+					prepub := l.Holds(hs, keyStore) && !l.HoldsReal(hs, keyStore)
+					c.Check(prepub, "R-C19-5", g, cs.Pos(), eng.InstrStr(cs)+" [when]", "Declared is set only before the store is published (by the constructor)", "in "+eng.FName(g)+" with "+l.StateStr(hs))
+					okName := false
+					for _, m := range eng.MapOps(g) {
+						if m.Kind == "update" && eng.Origin(m.Val) == cs.Value() {
+							for _, cond := range eng.FactsAt(m.In) {
+								if _, isNil, isN := cond.NilCheck(); isN && isNil {
+									okName = true
+								}
+							}
+						}
+					}
+					c.Check(okName, "R-C19-5", g, cs.Pos(), eng.InstrStr(cs)+" [which]", "only names of the configured list (or entries stubbed from it) are marked declared", "")
+				}
+				if handled {
+					continue
+				}
+			}
 			nDecl++
 			hs := l.HeldBefore(a.In)
 			prepub := l.Holds(hs, keyStore) && !l.HoldsReal(hs, keyStore)
